@@ -109,7 +109,7 @@ def meanN [Add α] [Div α] [OfNat α 0] [NatCast α] (n : Nat) (f : Nat → α)
 /-- elementwise unary operation (also: operations with a Python scalar) -/
 def map (f : α → β) (t : T α) : T β := ⟨t.rshape, fun idx => f (t.get idx)⟩
 
-/-- scalar as a rank-`n` tensor of ones-shape is never needed: a constant tensor of a given shape -/
+/-- a constant tensor of a given (reversed) shape: `np.ones(shape)`, `np.array(x)` for `rshape = []` -/
 def const (rshape : List Nat) (x : α) : T α := ⟨rshape, fun _ => x⟩
 
 /-- elementwise binary operation with NumPy broadcasting -/
